@@ -1251,3 +1251,83 @@ func ruleLiteralBinOpWritesBack(r *Run) {
 		o.OK("accepted results are written into r.Samples and the list is set to the accepted ones").At(r.pos(fn.Pos()))
 	}
 }
+
+// ruleSinceZeroIsAValue (PV-GUARD): the default of --since applies when the flag is absent, not
+// when its value is zero: the parsed duration is never compared with a constant to decide whether a
+// default replaces it.
+func ruleSinceZeroIsAValue(r *Run) {
+	p := r.P
+	o := r.Ob("PV-GUARD", "main.parseTimeRange since default", "the --since default replaces an absent flag only: the parsed duration is not tested against a constant (an explicit 0 gives start = min(end, now))")
+	fn := p.Func(cmdPkg, "parseTimeRange")
+	if fn == nil {
+		o.Fail("-", "parseTimeRange not found")
+		return
+	}
+	n, good := 0, true
+	for _, g := range pkgClosure(fn) {
+		for _, c := range callsIn(g) {
+			if pk, nm := calleePkgName(c); !strings.HasSuffix(pk, "prometheus/common/model") || nm != "ParseDuration" {
+				continue
+			}
+			call, ok := c.(*ssa.Call)
+			if !ok {
+				continue
+			}
+			n++
+			derived := map[ssa.Value]bool{}
+			var mark func(v ssa.Value, d int)
+			mark = func(v ssa.Value, d int) {
+				if derived[v] || d > 8 || v.Referrers() == nil {
+					return
+				}
+				derived[v] = true
+				for _, ref := range *v.Referrers() {
+					switch x := ref.(type) {
+					case *ssa.Extract:
+						if x.Index == 0 {
+							mark(x, d+1)
+						}
+					case *ssa.Convert:
+						mark(x, d+1)
+					case *ssa.ChangeType:
+						mark(x, d+1)
+					case *ssa.Phi:
+						mark(x, d+1)
+					case *ssa.Store:
+						if al, ok := x.Addr.(*ssa.Alloc); ok && x.Val == v {
+							for _, r2 := range *al.Referrers() {
+								if u, ok := r2.(*ssa.UnOp); ok && u.Op == token.MUL {
+									mark(u, d+1)
+								}
+							}
+						}
+					case *ssa.BinOp:
+						switch x.Op {
+						case token.EQL, token.NEQ, token.LSS, token.LEQ, token.GTR, token.GEQ:
+							other := x.Y
+							if other == v {
+								other = x.X
+							}
+							if _, isC := other.(*ssa.Const); isC {
+								for _, r2 := range *x.Referrers() {
+									if _, isIf := r2.(*ssa.If); isIf {
+										good = false
+										o.Fail(r.pos(x.Pos()), "the parsed --since is compared with %s to choose between it and a default: an explicit value equal to it is treated as if the flag were absent", describe(other, 0))
+									}
+								}
+							}
+						}
+					}
+				}
+			}
+			mark(call, 0)
+		}
+	}
+	if n == 0 {
+		o.Fail(r.pos(fn.Pos()), "no ParseDuration call found for --since")
+		return
+	}
+	if good {
+		o.OK("the parsed duration is used as it is").At(r.pos(fn.Pos()))
+	}
+}
